@@ -322,8 +322,6 @@ pub fn npn_canonization_res(
     panic!();
 }
 
-// TODO: handle 0 and 1 input cases, where the flip or swap list may be empty
-
 pub fn p_canonization(num_vars: usize, table: &mut [u64], best: &mut [u64], res_perm: &mut [u8]) {
     if num_vars <= 6 {
         let best_ind =
@@ -337,7 +335,17 @@ pub fn p_canonization(num_vars: usize, table: &mut [u64], best: &mut [u64], res_
 }
 
 pub fn n_canonization(num_vars: usize, table: &mut [u64], best: &mut [u64]) -> u32 {
-    if num_vars <= 6 {
+    if num_vars == 0 {
+        // No input to flip: only the output complementation remains
+        best.clone_from_slice(table);
+        not_inplace(num_vars, table);
+        if cmp(table, best).is_lt() {
+            best.clone_from_slice(table);
+            1
+        } else {
+            0
+        }
+    } else if num_vars <= 6 {
         let best_ind =
             n_canonization_ind(num_vars, &mut table[0..1], &mut best[0..1], FLIPS[num_vars]);
         n_canonization_res(num_vars, FLIPS[num_vars], best_ind)
@@ -354,7 +362,13 @@ pub fn npn_canonization(
     best: &mut [u64],
     res_perm: &mut [u8],
 ) -> u32 {
-    if num_vars <= 6 {
+    if num_vars <= 1 {
+        // No permutation possible (the swap list is empty): same as N canonization
+        for i in 0..res_perm.len() {
+            res_perm[i] = i as u8;
+        }
+        n_canonization(num_vars, table, best)
+    } else if num_vars <= 6 {
         let best_ind = npn_canonization_ind(
             num_vars,
             &mut table[0..1],
